@@ -297,6 +297,16 @@ def _fragment(prog, f, loop, lv, w):
     for p_ in f.params:
         outer[p_["d"]] = p_
     local = {x.get("d") for x in walk(body) if x.get("k") == "VarDecl"}
+    # state carried from one character to the next (other than the accumulator): the fragment for a character is
+    # then not a function of that character alone, and this rule cannot judge it
+    for x in walk(body):
+        for d_, _e in flow.written_decls(x):
+            if d_ in local or d_ == lv.get("d") or d_ == lv.get("index"):
+                continue
+            decl = outer.get(d_)
+            t_ = (decl or {}).get("t") or (decl or {}).get("ct") or ""
+            if decl is not None and not ("string" in t_ or "vector" in t_):
+                raise Unfoldable("the translation depends on `%s`, which is carried over from the preceding characters" % decl.get("n"))
     if "index" in lv:
         ids = {id(x) for x in lv["reads"]}
         folder = StrFolder(prog, f, char_hook=lambda g, n, env: sw if id(n) in ids else None)
